@@ -213,7 +213,7 @@ func verifSetCfg(c string) verifCfg {
 			var ps []string
 			if v != "" {
 				for _, p := range strings.Split(v, ":") {
-					ps = append(ps, unhx(p))
+					ps = append(ps, unhx(p[1:]))
 				}
 			}
 			SetEagerRedactionPaths(ps)
